@@ -478,7 +478,7 @@ namespace Dune {
     >::type&
     operator+= (const ValueType& kk)
     {
-      const value_type& k = kk;
+      const value_type k = kk;   // by value: kk may refer to an entry of *this
       for (size_type i=0; i<size(); i++)
         (*this)[i] += k;
       return asImp();
@@ -500,7 +500,7 @@ namespace Dune {
     >::type&
     operator-= (const ValueType& kk)
     {
-      const value_type& k = kk;
+      const value_type k = kk;   // by value: kk may refer to an entry of *this
       for (size_type i=0; i<size(); i++)
         (*this)[i] -= k;
       return asImp();
@@ -522,7 +522,7 @@ namespace Dune {
     >::type&
     operator*= (const FieldType& kk)
     {
-      const field_type& k = kk;
+      const field_type k = kk;   // by value: kk may refer to an entry of *this
       for (size_type i=0; i<size(); i++)
         (*this)[i] *= k;
       return asImp();
@@ -544,7 +544,7 @@ namespace Dune {
     >::type&
     operator/= (const FieldType& kk)
     {
-      const field_type& k = kk;
+      const field_type k = kk;   // by value: kk may refer to an entry of *this
       for (size_type i=0; i<size(); i++)
         (*this)[i] /= k;
       return asImp();
@@ -575,8 +575,9 @@ namespace Dune {
     derived_type& axpy (const field_type& a, const DenseVector<Other>& x)
     {
       DUNE_ASSERT_BOUNDS(x.size() == size());
+      const field_type aa = a;   // by value: a may refer to an entry of *this
       for (size_type i=0; i<size(); i++)
-        (*this)[i] += a*x[i];
+        (*this)[i] += aa*x[i];
       return asImp();
     }
 
